@@ -279,3 +279,148 @@ theorem nodeShip_bo_other (net : Net) (hwf : NetWF net) (m : Nat) (s : State)
         edge_out_of_range s e (Nat.le_of_not_lt hl)]
 
 end Stockpyl.Sim
+
+namespace Stockpyl.Sim
+open Stockpyl
+
+/-! ### more frame facts for the node-level balance (C01) -/
+
+/-- Only one node touches the projection: it undergoes that node's action exactly once. -/
+theorem passG_single {α : Type} (op : Nat → State → State) (π : State → α) (P : State → Prop)
+    (hP : ∀ n s, P s → P (op n s)) (g : Nat) (R : α → α → Prop)
+    (hother : ∀ n s, P s → n ≠ g → π (op n s) = π s)
+    (hg : ∀ s, P s → R (π s) (π (op g s))) :
+    ∀ (l : List Nat) (s : State), P s → l.Nodup → g ∈ l →
+      R (π s) (π (l.foldl (fun s n => op n s) s)) := by
+  have none : ∀ (l : List Nat) (s : State), P s → g ∉ l → π (l.foldl (fun s n => op n s) s) = π s := by
+    intro l
+    induction l with
+    | nil => intro s _ _; rfl
+    | cons x xs ih =>
+      intro s h hg'
+      simp only [List.foldl_cons]
+      rw [ih _ (hP x s h) (fun hm => hg' (by simp [hm]))]
+      exact hother x s h (fun hx => hg' (by simp [hx]))
+  intro l
+  induction l with
+  | nil => intro s _ _ hg'; simp at hg'
+  | cons x xs ih =>
+    intro s h hnd hgm
+    have hnd' := List.nodup_cons.mp hnd
+    simp only [List.foldl_cons]
+    by_cases hx : x = g
+    · subst hx
+      rw [none xs _ (hP x s h) hnd'.1]
+      exact hg s h
+    · have hm : g ∈ xs := by
+        rcases List.mem_cons.mp hgm with h' | h'
+        · exact absurd h'.symm hx
+        · exact h'
+      have := ih _ (hP x s h) hnd'.2 hm
+      rw [hother x s h hx] at this
+      exact this
+
+theorem nodeShip_node_other (net : Net) (m n : Nat) (s : State) (h : m ≠ n) :
+    (nodeShip net m s).node n = s.node n := by
+  rw [nodeShip_eq]
+  simp only [propagate, node_modEdges, fillRate, afterLoop]
+  rw [node_modNode_ne _ m n _ h, node_modNode_ne _ m n _ h]
+  simp only [State.node, loopOf, shipLoop_nodes, preShip, rmToFg, nodes_modEdges, receiveShipments]
+  show (State.modNode _ m _).node n = _
+  rw [node_modNode_ne _ m n _ h]
+  simp [State.node, receiveShipments]
+
+theorem nodeShip_newFG_self (net : Net) (m : Nat) (s : State) (hm : m < s.nodes.length) :
+    ((nodeShip net m s).node m).newFG = producible net (receiveShipments net m s) m := by
+  have hmX : m < (loopOf net m s).1.nodes.length := by
+    simp only [loopOf]; rw [shipLoop_nodes]; simpa [preShip, rmToFg, receiveShipments] using hm
+  rw [nodeShip_eq]
+  simp only [propagate, node_modEdges, fillRate, afterLoop]
+  rw [node_modNode_self _ m _ (by simpa using hmX), node_modNode_self _ m _ hmX]
+  show ((loopOf net m s).1.node m).newFG = _
+  simp only [State.node, loopOf, shipLoop_nodes]
+  exact (preShip_node net m s hm).2
+
+/-- `nodeShip` never changes an inbound order (`io`), whoever runs it. -/
+theorem nodeShip_io (net : Net) (hwf : NetWF net) (m : Nat) (s : State)
+    (hlen : s.edges.length = net.edges.length) (hok : StateOK s) (e : Nat) :
+    ((nodeShip net m s).edge e).io = (s.edge e).io := by
+  obtain ⟨h1, h2, h3, h4⟩ := nodeShip_spec net hwf m s hlen hok
+  by_cases hl : e < s.edges.length
+  · by_cases ho : e ∈ (net.cfg m).outE
+    · obtain ⟨oh, sp, _, hh⟩ := h4 e ho
+      rw [hh]
+      have fr := shipOne_frame oh sp ((net.edge e).dst.isNone) (s.edge e)
+      simp only at fr
+      have : (propEdge net e (shipOne oh sp ((net.edge e).dst.isNone) (s.edge e)).e).io =
+          (shipOne oh sp ((net.edge e).dst.isNone) (s.edge e)).e.io := by
+        unfold propEdge; split <;> rfl
+      rw [this, fr.2.2.2.2.2.2.2]
+    · by_cases hi : e ∈ (net.cfg m).inE
+      · rw [h3 e hi]; cases (isDisr net s m .RP) <;> rfl
+      · rw [h2 e hl hi ho]
+  · rw [edge_out_of_range _ e (by rw [h1]; exact Nat.le_of_not_lt hl),
+        edge_out_of_range s e (Nat.le_of_not_lt hl)]
+
+/-- Raw-material stock and the receipt of an in-edge change only when its customer runs `nodeShip`. -/
+theorem nodeShip_rm_other (net : Net) (hwf : NetWF net) (m : Nat) (s : State)
+    (hlen : s.edges.length = net.edges.length) (hok : StateOK s) (e : Nat) (hi : e ∉ (net.cfg m).inE) :
+    ((nodeShip net m s).edge e).rm = (s.edge e).rm ∧ ((nodeShip net m s).edge e).is_ = (s.edge e).is_ := by
+  obtain ⟨h1, h2, _, h4⟩ := nodeShip_spec net hwf m s hlen hok
+  by_cases hl : e < s.edges.length
+  · by_cases ho : e ∈ (net.cfg m).outE
+    · obtain ⟨oh, sp, _, hh⟩ := h4 e ho
+      rw [hh]
+      have fr := shipOne_frame oh sp ((net.edge e).dst.isNone) (s.edge e)
+      simp only at fr
+      have : (propEdge net e (shipOne oh sp ((net.edge e).dst.isNone) (s.edge e)).e).rm =
+          (shipOne oh sp ((net.edge e).dst.isNone) (s.edge e)).e.rm ∧
+          (propEdge net e (shipOne oh sp ((net.edge e).dst.isNone) (s.edge e)).e).is_ =
+          (shipOne oh sp ((net.edge e).dst.isNone) (s.edge e)).e.is_ := by
+        unfold propEdge; split <;> exact ⟨rfl, rfl⟩
+      rw [this.1, this.2, fr.2.2.2.2.2.1, fr.2.1]
+      exact ⟨rfl, rfl⟩
+    · rw [h2 e hl hi ho]; exact ⟨rfl, rfl⟩
+  · rw [edge_out_of_range _ e (by rw [h1]; exact Nat.le_of_not_lt hl),
+        edge_out_of_range s e (Nat.le_of_not_lt hl)]
+    exact ⟨rfl, rfl⟩
+
+/-- The customer's own visit: the receipt goes into raw-material stock, production comes out of it. -/
+theorem nodeShip_rm_self (net : Net) (hwf : NetWF net) (m : Nat) (s : State)
+    (hlen : s.edges.length = net.edges.length) (hok : StateOK s) (e : Nat) (hi : e ∈ (net.cfg m).inE) :
+    ((nodeShip net m s).edge e).rm =
+      (s.edge e).rm + ((nodeShip net m s).edge e).is_ - producible net (receiveShipments net m s) m := by
+  obtain ⟨_, _, h3, _⟩ := nodeShip_spec net hwf m s hlen hok
+  rw [h3 e hi]
+  cases (isDisr net s m .RP) <;> simp [consumeEdge, recvShipEdge] <;> grind
+
+/-- The order phase and the exogenous inputs never touch raw-material stock. -/
+theorem rm_modEdges (st : State) (es : List Nat) (f : Nat → EdgeSt → EdgeSt)
+    (hf : ∀ x ed, (f x ed).rm = ed.rm) (e : Nat) : ((st.modEdges es f).edge e).rm = (st.edge e).rm := by
+  induction es generalizing st with
+  | nil => rfl
+  | cons x xs ih =>
+    simp only [State.modEdges, List.foldl_cons] at ih ⊢
+    rw [ih]
+    by_cases hx : x = e
+    · subst hx
+      by_cases hl : x < st.edges.length
+      · rw [edge_modEdge_self st x _ hl]; exact hf _ _
+      · rw [edge_out_of_range _ x (by simpa using Nat.le_of_not_lt hl),
+            edge_out_of_range st x (Nat.le_of_not_lt hl)]
+    · rw [edge_modEdge_ne st x e _ hx]
+
+theorem orderOp_rm (net : Net) (m : Nat) (s : State) (e : Nat) :
+    ((orderOp net m s).edge e).rm = (s.edge e).rm := by
+  have r2 : ((receiveOrders net m s).edge e).rm = (s.edge e).rm := by
+    simp only [receiveOrders, edge_modNode]
+    refine rm_modEdges s _ _ ?_ e
+    intro _ _; rfl
+  simp only [orderOp, placeOrders]
+  split
+  · exact r2
+  · simp only [edge_modNode]
+    refine (rm_modEdges _ _ _ ?_ e).trans r2
+    intro x ed; simp only [placeOrderEdge]; split <;> rfl
+
+end Stockpyl.Sim
